@@ -33,13 +33,17 @@ pub struct ParamDeco {
     pub link: (String, String), pub em: (String, String), pub strong: (String, String),
     pub strike: (String, String), pub code: (String, String), pub img: (String, String),
     pub hdr: String, pub hdr_tail: String, pub quote: String, pub ul: String, pub ol_suffix: String,
+    /// per nesting level (cycling): the marker suffix of ordered lists; empty = ol_suffix at every level
+    pub ol_suffixes: Vec<String>, pub level: i64,
 }
 impl ParamDeco {
     pub fn from_json(v: &Value) -> ParamDeco {
         let s = |k: &str| v.get(k).and_then(|x| x.as_str()).unwrap_or("").to_string();
         let p = |k: &str| (s(&format!("{}_s", k)), s(&format!("{}_e", k)));
         ParamDeco { link: p("link"), em: p("em"), strong: p("strong"), strike: p("strike"), code: p("code"), img: p("img"),
-                    hdr: s("hdr"), hdr_tail: s("hdr_tail"), quote: s("quote"), ul: s("ul"), ol_suffix: s("ol_suffix") }
+                    hdr: s("hdr"), hdr_tail: s("hdr_tail"), quote: s("quote"), ul: s("ul"), ol_suffix: s("ol_suffix"),
+                    ol_suffixes: v.get("ol_suffixes").and_then(|a| a.as_array()).map(|a| a.iter().filter_map(|x| x.as_str().map(|s| s.to_string())).collect()).unwrap_or_default(),
+                    level: v.get("level").and_then(|x| x.as_i64()).unwrap_or(0) }
     }
 }
 impl TextDecorator for ParamDeco {
@@ -60,8 +64,12 @@ impl TextDecorator for ParamDeco {
     fn header_prefix(&self, level: usize) -> String { self.hdr.repeat(level) + &self.hdr_tail }
     fn quote_prefix(&self) -> String { self.quote.clone() }
     fn unordered_item_prefix(&self) -> String { self.ul.clone() }
-    fn ordered_item_prefix(&self, i: i64) -> String { format!("{}{}", i, self.ol_suffix) }
-    fn make_subblock_decorator(&self) -> Self { self.clone() }
+    fn ordered_item_prefix(&self, i: i64) -> String {
+        let suf = if self.ol_suffixes.is_empty() { &self.ol_suffix } else { &self.ol_suffixes[self.level.rem_euclid(self.ol_suffixes.len() as i64) as usize] };
+        format!("{}{}", i, suf)
+    }
+    // a decorator may style nested blocks differently: the copy made for a sub-block is one level deeper
+    fn make_subblock_decorator(&self) -> Self { let mut d = self.clone(); d.level += 1; d }
 }
 
 /// The decorator's strings as observed through its public trait methods.
@@ -234,7 +242,9 @@ pub fn run_one(html: &[u8], w: usize, cfg: &Value, route: &str) -> (Outcome, Val
         Some("trivial") => go!((config::with_decorator(TrivialDecorator::new()), TrivialDecorator::new()), run_generic),
         _ => {
             let pd = ParamDeco::from_json(&deco["custom"]);
-            go!((config::with_decorator(pd.clone()), pd), run_generic)
+            // (deco_strings looks at a sub-block copy: hand it the decorator one level up)
+            let mut up = pd.clone(); up.level -= 1;
+            go!((config::with_decorator(pd), up), run_generic)
         }
     }
 }
